@@ -18,14 +18,14 @@ import (
 
 // Finding is one failed oracle clause in a form all engines share.
 type Finding struct {
-	Props   []string `json:"props"`
-	Clause  string   `json:"clause"`
-	Trigger string   `json:"trigger,omitempty"` // minimal trigger class (part of the signature)
-	Detail  string   `json:"detail"`
-	Engine  string   `json:"engine"`
-	Config  string   `json:"config,omitempty"`
-	History []string `json:"history,omitempty"`
-	Extra   string   `json:"extra,omitempty"`
+	Props   []string       `json:"props"`
+	Clause  string         `json:"clause"`
+	Trigger string         `json:"trigger,omitempty"` // minimal trigger class (part of the signature)
+	Detail  string         `json:"detail"`
+	Engine  string         `json:"engine"`
+	Config  string         `json:"config,omitempty"`
+	History []string       `json:"history,omitempty"`
+	Extra   string         `json:"extra,omitempty"`
 	Replay  map[string]any `json:"replay,omitempty"` // what vcheck -replay needs
 }
 
@@ -93,14 +93,14 @@ type Ctx struct {
 	Start time.Time
 	Level string
 
-	mu         sync.Mutex
-	violations []*Finding
-	knownHits  map[string]*Finding
-	known      []Known
-	other      map[string]int // failures concerning other properties only (reported, not judged here)
-	Notes      []string
-	Coverage   map[string]any
-	Assumptions []string
+	mu           sync.Mutex
+	violations   []*Finding
+	knownHits    map[string]*Finding
+	known        []Known
+	other        map[string]int // failures concerning other properties only (reported, not judged here)
+	Notes        []string
+	Coverage     map[string]any
+	Assumptions  []string
 	Inconclusive []string
 }
 
